@@ -46,7 +46,7 @@ ASSUMPTIONS = [
     'The node assigns real ids (>= 1000) on alloc, as a real node does; interpreter-local placeholder ids are mapped by position.',
     'Independent key hashing covers the key types generated here (int, string, bytes, pair int string, pair int int int string), using the legacy (nested-pair) packing for combs, as the protocol does for big_map keys.',
 ]
-EXPECTED_PROBES = ['two_versions_of_one_fresh_big_map_stored', 'big_map_inside_option_storage', 'static_run_code_transaction', 'long_lived_session_reused', 'session_switched_network', 'parameter_big_map_session', 'empty_list_value_on_chain_read', 'sibling_key_types_same_text', 'read_chain_only_key', 'update_chain_only_key', 'remove_chain_only_key', 'reinsert_after_remove', 'read_after_local_remove_of_chain_key',
+EXPECTED_PROBES = ['transaction_through_session_RUN', 'two_versions_of_one_fresh_big_map_stored', 'big_map_inside_option_storage', 'static_run_code_transaction', 'long_lived_session_reused', 'session_switched_network', 'parameter_big_map_session', 'empty_list_value_on_chain_read', 'sibling_key_types_same_text', 'read_chain_only_key', 'update_chain_only_key', 'remove_chain_only_key', 'reinsert_after_remove', 'read_after_local_remove_of_chain_key',
                    'commit_with_removals', 'abandoned_session', 'failed_cell_midway', 'transient_on_read', 'second_txn_reads_first_txn_writes', 'dup_divergent']
 
 URI = 'http://node0.sim:8732'
@@ -245,7 +245,7 @@ def gen(seed, tier):
         st = {'op': 'begin', 'src': src, 'bm': rng.choice(['1000', '1000', '1001'])}
         if static:
             # the whole transaction is one contract executed through Interpreter.run_code (the non-REPL entry point)
-            st['static'] = rng.choice(['readable', 'optimized', 'legacy_optimized'])
+            st['static'] = rng.choice(['readable', 'optimized', 'legacy_optimized', 'session_run', 'session_run'])
         elif src != 'param' and rng.random() < 0.15:
             st['wrap'] = 'option'  # storage (option (big_map ..)): the lazily initialised big_map idiom
         elif src in ('literal', 'empty') and rng.random() < 0.3:
@@ -275,7 +275,18 @@ def gen(seed, tier):
                                                 {'f': 'latency', 'ms': rng.choice([10, 5000])}])}
             steps.append(s)
         steps.append({'op': 'commit'} if rng.random() < 0.8 else {'op': 'abandon'})
-    return {'prop': ID, 'ktype': ktype, 'ktypes': ktypes, 'vtype': vtype, 'keys': keys, 'chain0': chain0, 'chain0_b': chain0_b, 'same_session': same_session, 'steps': steps}
+    scn = {'prop': ID, 'ktype': ktype, 'ktypes': ktypes, 'vtype': vtype, 'keys': keys, 'chain0': chain0, 'chain0_b': chain0_b, 'same_session': same_session, 'steps': steps}
+    if rng.random() < 0.25:
+        # a young chain: the existing big_maps have small ids, in the range of the placeholder ids the interpreter hands out itself
+        a, b = rng.choice([('0', '1'), ('1', '2'), ('2', '0'), ('3', '1'), ('1', '0')])
+        ren = {'1000': a, '1001': b}
+        scn['ktypes'] = {ren[k]: v for k, v in ktypes.items()}
+        scn['chain0'] = {ren[k]: v for k, v in chain0.items()}
+        scn['chain0_b'] = {ren[k]: v for k, v in chain0_b.items()}
+        for st in steps:
+            if st.get('bm') in ren:
+                st['bm'] = ren[st['bm']]
+    return scn
 
 
 def cell_for(step, ktype, keys, vtype='string'):
@@ -319,18 +330,18 @@ def cell_for(step, ktype, keys, vtype='string'):
     raise core.HarnessError(op)
 
 
-def find_lazy_diff(node):
-    """Locate the lazy_diff of COMMIT in a rendered instruction tree."""
+def find_lazy_diff(node, cls='CommitInstruction'):
+    """Locate the lazy_diff of COMMIT (or RUN) in a rendered instruction tree."""
     if isinstance(node, dict):
-        if node.get('cls') == 'CommitInstruction':
+        if node.get('cls') == cls:
             return node.get('lazy_diff'), node.get('result')
         for v in node.values():
-            r = find_lazy_diff(v)
+            r = find_lazy_diff(v, cls)
             if r is not None:
                 return r
     elif isinstance(node, list):
         for v in node:
-            r = find_lazy_diff(v)
+            r = find_lazy_diff(v, cls)
             if r is not None:
                 return r
     return None
@@ -343,7 +354,7 @@ def execute(scn, want_log=False):
 
     rs.install_fault_points()
     sim = core.Sim()
-    node = nodesim.SimNode(sim, {})
+    node = nodesim.SimNode(sim, {'big_map_snapshots': True})
     node.bake(2)
     keys = [tuple(k) if isinstance(k, list) else k for k in scn['keys']]
     vtype = scn.get('vtype', 'string')
@@ -358,6 +369,7 @@ def execute(scn, want_log=False):
             nets[net]['model'][int(bm)] = {int(ki): v for ki, v in content.items()}
     cur_net = ['A']
     node.big_maps = nets['A']['big_maps']
+    node.bake(1)  # the head block's context holds the initial big_maps
     model = nets['A']['model']
     next_id = [2000]
     def routed(req):
@@ -497,6 +509,7 @@ def execute(scn, want_log=False):
                 if st.get('static'):
                     sess['static'] = st['static']
                     sess['code'] = []
+                    sess['storage_lit'] = lit
                     sess['storage_micheline'] = ({'int': str(sess['base_id'])} if sess['base_id'] is not None else
                                                  [{'prim': 'Elt', 'args': [key_micheline(ktype, k), val_micheline(vtype, v)]} for k, v, _ in pairs])
                     bump('static_run_code_transaction')
@@ -541,7 +554,21 @@ def execute(scn, want_log=False):
                 bump('parameter_big_map_session')
                 sess = None  # nothing durable is judged for a parameter big_map (see above)
                 continue
-            if op == 'commit' and sess.get('static'):
+            if op == 'commit' and sess.get('static') == 'session_run':
+                # the whole transaction is one contract run through the session's own RUN instruction (the notebook way)
+                K_, V_ = KTYPE_M[sess['ktype']], VTYPE_M[vtype]
+                body = ' ; '.join(['CDR'] + sess['code'] + ['NIL operation', 'PAIR'])
+                r0 = run(f'parameter unit ; storage (big_map {K_} {V_}) ; code {{ {body} }}')
+                res = run(f'RUN %default Unit {sess["storage_lit"]}') if r0.error is None else r0
+                rr = rs.render_result(res)
+                if res.error is not None:
+                    violate('commit', 'session-run-raises', error=rr['error'], code=body[:400])
+                    sess = None
+                    continue
+                found = find_lazy_diff(rr['instr'], cls='RunInstruction')
+                ld = found[0] if found else None
+                bump('transaction_through_session_RUN')
+            elif op == 'commit' and sess.get('static'):
                 from pytezos.michelson.parse import michelson_to_micheline
 
                 K_, V_ = KTYPE_M[sess['ktype']], VTYPE_M[vtype]
@@ -667,6 +694,7 @@ def execute(scn, want_log=False):
                     else:
                         final[ki] = ov
                 model[target] = final
+                node.bake(1)  # the transaction is included: a new head whose context holds the updated big_map
                 want = {H[ki]: val_micheline(vtype, v) for ki, v in final.items()}
                 if any(v == REMOVED for v in sess['overlay'].values()):
                     bump('commit_with_removals')
@@ -843,13 +871,13 @@ def simplify(scn):
     if len(set(kts.values())) > 1:
         for kt in sorted(set(kts.values())):
             c = cp()
-            c['ktypes'] = {'1000': kt, '1001': kt}
+            c['ktypes'] = {bm: kt for bm in kts}
             c['ktype'] = kt
             yield c
     if scn['ktype'] != 'int' and len(set(kts.values())) <= 1:
         c = cp()
         c['ktype'] = 'int'
-        c['ktypes'] = {'1000': 'int', '1001': 'int'}
+        c['ktypes'] = {bm: 'int' for bm in (kts or {'1000': 0, '1001': 0})}
         c['keys'] = UNIVERSES['int'][: len(scn['keys'])]
         yield c
     if scn.get('vtype', 'string') != 'string':
